@@ -35,6 +35,7 @@ def runC05 (op : String) (j : Json) : R Json := do
       | none => denseOK g T thr x
       | some l => denseExplicitOK T l x
     pure (Json.mkObj [("model", jRecord r), ("model_spec", Json.bool (ok r)),
+                      ("determined", Json.bool (nearDetermined g r.best)),
                       ("impl_spec", match impl with | some x => Json.bool (ok x) | none => Json.null)])
   | "sparse" =>
     let cols ← getInts j "cols"
